@@ -1197,6 +1197,279 @@ fn exec_rt(case: &Case, iour: bool, kind: &str, ex: &mut Exec) {
 }
 
 // ---------------------------------------------------------------------------------------------
+// layer `prod`: descriptors produced by operations, cancel timing, both drivers
+// ---------------------------------------------------------------------------------------------
+
+/// what a finished producing operation hands to the caller (kept alive = "taken")
+enum Got {
+    Tcp(compio_net::TcpStream),
+    File(compio_fs::File),
+    Sock(compio_net::TcpSocket),
+    Pipe(compio_fs::pipe::Receiver, compio_fs::pipe::Sender),
+}
+
+type GotFut = Pin<Box<dyn Future<Output = io::Result<Got>>>>;
+type GotStream = Pin<Box<dyn futures_util::Stream<Item = io::Result<compio_net::TcpStream>>>>;
+
+enum Pending_ {
+    None,
+    Fut(GotFut),
+    Stream(GotStream),
+}
+
+struct ProdWorld<'a> {
+    rt: &'a Runtime,
+    kind: String,
+    baseline: Vec<RawFd>,
+    listener: Option<Box<compio_net::TcpListener>>,
+    addr: Option<std::net::SocketAddr>,
+    peers: Vec<std::net::TcpStream>,
+    pending: Pending_,
+    submitted: bool,
+    taken: Vec<Got>,
+    wake_log: Arc<Mutex<Vec<usize>>>,
+    waker: Waker,
+}
+
+impl<'a> ProdWorld<'a> {
+    fn new(rt: &'a Runtime, kind: &str) -> Option<Self> {
+        let baseline = open_fds();
+        let (listener, addr) = if kind == "accept" || kind == "multi" {
+            let l = std::net::TcpListener::bind("127.0.0.1:0").unwrap();
+            let addr = l.local_addr().unwrap();
+            (Some(Box::new(compio_net::TcpListener::from_std(l).unwrap())), Some(addr))
+        } else if matches!(kind, "open" | "socket" | "pipe") {
+            (None, None)
+        } else {
+            return None;
+        };
+        let wake_log = Arc::new(Mutex::new(vec![]));
+        let waker = mk_waker(0, &wake_log);
+        Some(ProdWorld {
+            rt,
+            kind: kind.into(),
+            baseline,
+            listener,
+            addr,
+            peers: vec![],
+            pending: Pending_::None,
+            submitted: false,
+            taken: vec![],
+            wake_log,
+            waker,
+        })
+    }
+
+    fn make(&mut self) {
+        match self.kind.as_str() {
+            "accept" => {
+                let l = (**self.listener.as_ref().unwrap()).clone();
+                self.pending = Pending_::Fut(Box::pin(async move { l.accept().await.map(|(s, _)| Got::Tcp(s)) }));
+            }
+            "multi" => {
+                // the stream borrows the listener; the box outlives the stream (dropped first in `end`)
+                let l: &'static compio_net::TcpListener =
+                    unsafe { &*(&**self.listener.as_ref().unwrap() as *const compio_net::TcpListener) };
+                self.pending = Pending_::Stream(Box::pin(l.incoming()));
+            }
+            "open" => {
+                self.pending =
+                    Pending_::Fut(Box::pin(async move { compio_fs::File::open("/proc/self/exe").await.map(Got::File) }));
+            }
+            "socket" => {
+                self.pending = Pending_::Fut(Box::pin(async move { compio_net::TcpSocket::new_v4().await.map(Got::Sock) }));
+            }
+            "pipe" => {
+                self.pending =
+                    Pending_::Fut(Box::pin(async move { compio_fs::pipe::anonymous().await.map(|(r, s)| Got::Pipe(r, s)) }));
+            }
+            _ => unreachable!(),
+        }
+    }
+
+    /// descriptors that are open, not in the baseline and not owned by the harness
+    fn unexplained(&self) -> usize {
+        let mut mine: Vec<RawFd> = self.baseline.clone();
+        if let Some(l) = &self.listener {
+            mine.push(l.as_raw_fd());
+        }
+        for p in &self.peers {
+            mine.push(p.as_raw_fd());
+        }
+        for g in &self.taken {
+            match g {
+                Got::Tcp(s) => mine.push(s.as_raw_fd()),
+                Got::File(f) => mine.push(f.as_raw_fd()),
+                Got::Sock(s) => mine.push(s.as_raw_fd()),
+                Got::Pipe(r, s) => {
+                    mine.push(r.as_raw_fd());
+                    mine.push(s.as_raw_fd());
+                }
+            }
+        }
+        open_fds().into_iter().filter(|fd| !mine.contains(fd)).count()
+    }
+
+    fn poll_once(&mut self, ex: &mut Exec) -> String {
+        let mut cx = Context::from_waker(&self.waker);
+        match &mut self.pending {
+            Pending_::None => "none".into(),
+            Pending_::Fut(f) => match f.as_mut().poll(&mut cx) {
+                Poll::Pending => "pending".into(),
+                Poll::Ready(Ok(g)) => {
+                    self.taken.push(g);
+                    self.pending = Pending_::None;
+                    "ready-ok".into()
+                }
+                Poll::Ready(Err(e)) => {
+                    self.pending = Pending_::None;
+                    if e.raw_os_error() == Some(libc::EBADF) {
+                        ex.fail("C06:ebadf", format!("producing operation failed with {e}"));
+                    }
+                    "ready-err".into()
+                }
+            },
+            Pending_::Stream(st) => match st.as_mut().poll_next(&mut cx) {
+                Poll::Pending => "pending".into(),
+                Poll::Ready(Some(Ok(s))) => {
+                    self.taken.push(Got::Tcp(s));
+                    "ready-ok".into()
+                }
+                Poll::Ready(Some(Err(_))) => "ready-err".into(),
+                Poll::Ready(None) => "ready-end".into(),
+            },
+        }
+    }
+
+    fn wakes(&self) -> usize {
+        self.wake_log.lock().unwrap().len()
+    }
+
+    fn event(&mut self, w: &[&str], ex: &mut Exec) -> Option<String> {
+        let mut r = "-".to_string();
+        let mut x = "-".to_string();
+        match w[0] {
+            "submit" => {
+                if self.submitted {
+                    return None;
+                }
+                self.submitted = true;
+                self.make();
+                r = self.poll_once(ex);
+            }
+            "connect" => {
+                let addr = self.addr?;
+                if self.peers.len() >= 4 {
+                    return None;
+                }
+                self.peers.push(std::net::TcpStream::connect(addr).unwrap());
+            }
+            "settle" => {
+                // drive until the future's task has been woken (completion delivered) or nothing is expected
+                let blocking_in_flight =
+                    matches!(self.kind.as_str(), "open" | "socket" | "pipe") && self.submitted;
+                let w0 = self.wakes();
+                let alive = !matches!(self.pending, Pending_::None);
+                let log = self.wake_log.clone();
+                if alive && blocking_in_flight {
+                    settle(self.rt, Duration::from_secs(2), || log.lock().unwrap().len() > w0);
+                } else if blocking_in_flight {
+                    // cancelled while a pool thread may still run it: give it time, then reap
+                    std::thread::sleep(Duration::from_millis(3));
+                    settle(self.rt, Duration::from_millis(1), || false);
+                } else {
+                    settle(self.rt, Duration::from_micros(400), || false);
+                }
+                x = self.unexplained().to_string();
+            }
+            "poll" => {
+                if matches!(self.pending, Pending_::None) {
+                    return None;
+                }
+                r = self.poll_once(ex);
+            }
+            "drop" => {
+                if matches!(self.pending, Pending_::None) {
+                    return None;
+                }
+                self.pending = Pending_::None;
+            }
+            _ => return None,
+        }
+        Some(format!("ok r={} taken={} x={}", r, self.taken.len(), x))
+    }
+
+    fn end(mut self, ex: &mut Exec) -> String {
+        let cancelled_blocking = matches!(self.kind.as_str(), "open" | "socket" | "pipe") && self.submitted;
+        self.pending = Pending_::None;
+        self.taken.clear();
+        self.peers.clear();
+        self.listener = None;
+        if cancelled_blocking {
+            std::thread::sleep(Duration::from_millis(3));
+        }
+        let base = self.baseline.clone();
+        let ok = settle(self.rt, Duration::from_millis(300), || open_fds() == base);
+        let after = open_fds();
+        let extra: Vec<_> = after.iter().filter(|fd| !base.contains(fd)).collect();
+        let missing: Vec<_> = base.iter().filter(|fd| !after.contains(fd)).collect();
+        if !ok {
+            if !extra.is_empty() {
+                ex.fail("C06:fd-leak", format!("{}: descriptors {extra:?} still open after the program", self.kind));
+            }
+            if !missing.is_empty() {
+                ex.fail("C06:foreign-close", format!("{}: descriptors {missing:?} of the baseline were closed", self.kind));
+            }
+        }
+        format!("leak={}", extra.len())
+    }
+}
+
+fn exec_prod(case: &Case, iour: bool, kind: &str, ex: &mut Exec) {
+    let r = with_rt(iour, |rt| {
+        // let stragglers of earlier cases finish
+        settle(rt, Duration::from_micros(200), || false);
+        let Some(mut w) = ProdWorld::new(rt, kind) else {
+            for _ in &case.lines {
+                ex.out.push("bad-op".into());
+            }
+            return;
+        };
+        ex.out.push("ok".into());
+        let mut kinds = vec![];
+        let n = case.lines.len();
+        let mut ended = false;
+        for (i, l) in case.lines[1..].iter().enumerate() {
+            let ws: Vec<&str> = l.split_whitespace().collect();
+            if ws == ["end"] && i + 2 == n {
+                ended = true;
+                break;
+            }
+            match w.event(&ws, ex) {
+                Some(o) => {
+                    kinds.push(ws[0].to_string());
+                    ex.out.push(o)
+                }
+                None => ex.out.push("rej".into()),
+            }
+        }
+        let e = w.end(ex);
+        if ended {
+            ex.out.push(e);
+        }
+        ex.tag(format!("prod-{}-{}", if iour { "iour" } else { "poll" }, kind));
+        ex.tag(format!("prodseq-{}", kinds.join(">")));
+        ex.nontrivial = true;
+    });
+    if let Err(e) = r {
+        ex.out.clear();
+        for _ in &case.lines {
+            ex.out.push(format!("no-runtime {e}"));
+        }
+    }
+}
+
+// ---------------------------------------------------------------------------------------------
 
 fn generate(tier: &str, rng: &mut Rng) -> Vec<Case> {
     let mut cases = vec![];
@@ -1326,6 +1599,7 @@ fn exec(case: &Case) -> Exec {
         ["sfd", "unsync"] => exec_sfd::<compio_driver::SharedFd<Tracked>>(case, false, &mut ex),
         ["sfd", "sync"] => exec_sfd::<fd_sync::SharedFd<Tracked>>(case, true, &mut ex),
         ["rt", d @ ("iour" | "poll"), kind] => exec_rt(case, *d == "iour", kind, &mut ex),
+        ["prod", d @ ("iour" | "poll"), kind] => exec_prod(case, *d == "iour", kind, &mut ex),
         ["stress", ..] => {
             exec_stress(case, &mut ex);
             for _ in 1..case.lines.len() {
